@@ -212,6 +212,10 @@ class BudgetExceeded(Exception):
     pass
 
 
+# numerical failures inside scipy's root finders on hostile trial steps: a failed solve, never a verdict
+SOLVE_ERRORS = (ValueError, FloatingPointError, np.linalg.LinAlgError, OverflowError, ZeroDivisionError)
+
+
 METHODS = [('krylov', {}), ('krylov', {'line_search': 'wolfe'}), ('df-sane', {}), ('anderson', {}), ('broyden1', {})]
 
 
@@ -235,7 +239,7 @@ def solve(p, method='krylov', options=None, guess=None, max_evals=4000):
             res = p.solve(guess=guess, method=method, options=opt)
     except BudgetExceeded:
         return None
-    except (ValueError, FloatingPointError, np.linalg.LinAlgError, OverflowError, ZeroDivisionError):
+    except SOLVE_ERRORS:
         # scipy raises on NaN/inf trial steps; a failed solve is not a verdict
         return None
     finally:
